@@ -456,9 +456,11 @@ Inv_C09_TotalFee(s) ==
      /\ o.fee >= 0
      /\ o.fee = IF o.qfilled = 0 THEN 0 ELSE FeeDue(o.pair, o.qfilled)
 \* C10: the margin requirement, recomputed independently of MarginCheck (no interest term, no level)
+\* (a borrowed symbol that cannot be valued at all does not meet any requirement: the request must fail)
 MarginRequirementMet(s) ==
   LET bs == {x \in Syms : s.bor[x] > 0} IN
-  (\A x \in bs \cup {y \in Syms : s.bal[y] - s.bor[y] > 0} : HasPrice(s, x)) =>
+  /\ \A x \in {y \in bs : Cond(y).reqN > 0} : HasPrice(s, x)
+  /\ (\A x \in bs \cup {y \in Syms : s.bal[y] - s.bor[y] > 0} : HasPrice(s, x)) =>
      LET RECURSIVE SU(_)
          SU(S) == IF S = {} THEN 0 ELSE LET x == CHOOSE x \in S : TRUE IN ValQ(s, x, s.bor[x]) * Cond(x).reqN + SU(S \ {x})
          RECURSIVE SE(_)
